@@ -6,37 +6,75 @@ use crate::ir::derive::CanDerive;
 fn any_cd() -> CanDerive {
     let k: u8 = kani::any();
     kani::assume(k < 3);
-    match k { 0 => CanDerive::Yes, 1 => CanDerive::Manually, _ => CanDerive::No }
+    match k {
+        0 => CanDerive::Yes,
+        1 => CanDerive::Manually,
+        _ => CanDerive::No,
+    }
 }
 // declared order (doc comment of CanDerive): Yes < Manually < No
-fn cd_rank(c: CanDerive) -> u8 { match c { CanDerive::Yes => 0, CanDerive::Manually => 1, CanDerive::No => 2 } }
+fn cd_rank(c: CanDerive) -> u8 {
+    match c {
+        CanDerive::Yes => 0,
+        CanDerive::Manually => 1,
+        CanDerive::No => 2,
+    }
+}
 
 #[kani::proof]
 pub(crate) fn can_derive_join_is_lub() {
     let (a, b, c) = (any_cd(), any_cd(), any_cd());
     let j = a.join(b);
-    assert!(cd_rank(j) == if cd_rank(a) >= cd_rank(b) { cd_rank(a) } else { cd_rank(b) });
+    assert!(
+        cd_rank(j)
+            == if cd_rank(a) >= cd_rank(b) {
+                cd_rank(a)
+            } else {
+                cd_rank(b)
+            }
+    );
     assert!((a | b) == j);
     let mut x = a;
     x |= b;
     assert!(x == j);
     // commutative, associative, idempotent follow from max; stated for completeness
-    assert!(a.join(b) == b.join(a) && a.join(a) == a && a.join(b).join(c) == a.join(b.join(c)));
+    assert!(
+        a.join(b) == b.join(a)
+            && a.join(a) == a
+            && a.join(b).join(c) == a.join(b.join(c))
+    );
 }
 
 fn any_hv() -> HasVtableResult {
     let k: u8 = kani::any();
     kani::assume(k < 3);
-    match k { 0 => HasVtableResult::No, 1 => HasVtableResult::SelfHasVtable, _ => HasVtableResult::BaseHasVtable }
+    match k {
+        0 => HasVtableResult::No,
+        1 => HasVtableResult::SelfHasVtable,
+        _ => HasVtableResult::BaseHasVtable,
+    }
 }
 // declared order: No < SelfHasVtable < BaseHasVtable
-fn hv_rank(c: HasVtableResult) -> u8 { match c { HasVtableResult::No => 0, HasVtableResult::SelfHasVtable => 1, HasVtableResult::BaseHasVtable => 2 } }
+fn hv_rank(c: HasVtableResult) -> u8 {
+    match c {
+        HasVtableResult::No => 0,
+        HasVtableResult::SelfHasVtable => 1,
+        HasVtableResult::BaseHasVtable => 2,
+    }
+}
 
 #[kani::proof]
 pub(crate) fn has_vtable_join_is_lub() {
     let (a, b) = (any_hv(), any_hv());
     let j = a.join(b);
-    assert!(hv_rank(j) == if hv_rank(a) >= hv_rank(b) { hv_rank(a) } else { hv_rank(b) });
+    assert!(
+        hv_rank(j)
+            == if hv_rank(a) >= hv_rank(b) {
+                hv_rank(a)
+            } else {
+                hv_rank(b)
+            }
+    );
     assert!((a | b) == j);
     let mut x = a;
     x |= b;
@@ -46,16 +84,33 @@ pub(crate) fn has_vtable_join_is_lub() {
 fn any_sz() -> SizednessResult {
     let k: u8 = kani::any();
     kani::assume(k < 3);
-    match k { 0 => SizednessResult::ZeroSized, 1 => SizednessResult::DependsOnTypeParam, _ => SizednessResult::NonZeroSized }
+    match k {
+        0 => SizednessResult::ZeroSized,
+        1 => SizednessResult::DependsOnTypeParam,
+        _ => SizednessResult::NonZeroSized,
+    }
 }
 // declared order: ZeroSized < DependsOnTypeParam < NonZeroSized
-fn sz_rank(c: SizednessResult) -> u8 { match c { SizednessResult::ZeroSized => 0, SizednessResult::DependsOnTypeParam => 1, SizednessResult::NonZeroSized => 2 } }
+fn sz_rank(c: SizednessResult) -> u8 {
+    match c {
+        SizednessResult::ZeroSized => 0,
+        SizednessResult::DependsOnTypeParam => 1,
+        SizednessResult::NonZeroSized => 2,
+    }
+}
 
 #[kani::proof]
 pub(crate) fn sizedness_join_is_lub() {
     let (a, b) = (any_sz(), any_sz());
     let j = a.join(b);
-    assert!(sz_rank(j) == if sz_rank(a) >= sz_rank(b) { sz_rank(a) } else { sz_rank(b) });
+    assert!(
+        sz_rank(j)
+            == if sz_rank(a) >= sz_rank(b) {
+                sz_rank(a)
+            } else {
+                sz_rank(b)
+            }
+    );
     assert!((a | b) == j);
     let mut x = a;
     x |= b;
@@ -65,7 +120,16 @@ pub(crate) fn sizedness_join_is_lub() {
 #[kani::proof]
 pub(crate) fn lattice_canary() {
     let (a, b) = (any_cd(), any_cd());
-    kani::cover!(a.join(b) == CanDerive::Manually, "Manually reachable as a join");
-    kani::cover!(any_hv().join(any_hv()) == HasVtableResult::BaseHasVtable, "top of vtable lattice reachable");
-    kani::cover!(any_sz().join(any_sz()) == SizednessResult::DependsOnTypeParam, "middle of sizedness lattice reachable");
+    kani::cover!(
+        a.join(b) == CanDerive::Manually,
+        "Manually reachable as a join"
+    );
+    kani::cover!(
+        any_hv().join(any_hv()) == HasVtableResult::BaseHasVtable,
+        "top of vtable lattice reachable"
+    );
+    kani::cover!(
+        any_sz().join(any_sz()) == SizednessResult::DependsOnTypeParam,
+        "middle of sizedness lattice reachable"
+    );
 }
